@@ -122,6 +122,10 @@ func (p *FloatingIPPlugin) resyncAllocatedIPs(meta *resyncMeta) {
 					// return to retry unassign ip in the next resync loop
 					return
 				}
+				if err := p.unassignOtherIPs(key, obj.fip.IP); err != nil {
+					glog.Warning(err)
+					return
+				}
 				// for tapp and sts pod, we need to clean its node attr and uid
 				if err := p.reserveIP(key, key, "unassign ip during resync"); err != nil {
 					glog.Error(err)
